@@ -87,23 +87,23 @@ fn oracle(c: &C03Case, info: &mut Case) -> Result<(), String> {
     for (ci, cx) in c.contexts.iter().enumerate() {
         let mut sessions = Vec::new();
         match cx.prior % 4 {
-            1 => sessions.push(SessionSpec { files: vec![FileSpec { feed: vec![], ..c.content.clone() }], concurrent: false, yields: vec![], client: 0, restart_before: false }),
+            1 => sessions.push(SessionSpec { files: vec![FileSpec { feed: vec![], ..c.content.clone() }], concurrent: false, yields: vec![], client: 0, restart_before: false, peer: false }),
             2 => {
                 let mut pre = c.content.clone();
                 let keep = pre.elems.len() / 2;
                 pre.elems.truncate(keep);
                 pre.tail = None;
                 pre.feed = vec![];
-                sessions.push(SessionSpec { files: vec![pre], concurrent: false, yields: vec![], client: 0, restart_before: false });
+                sessions.push(SessionSpec { files: vec![pre], concurrent: false, yields: vec![], client: 0, restart_before: false, peer: false });
             },
-            3 => sessions.push(SessionSpec { files: cx.prior_files.clone(), concurrent: false, yields: vec![], client: 0, restart_before: false }),
+            3 => sessions.push(SessionSpec { files: cx.prior_files.clone(), concurrent: false, yields: vec![], client: 0, restart_before: false, peer: false }),
             _ => {},
         }
         let mut files = cx.before.clone();
         let content_index = files.len();
         files.push(FileSpec { feed: cx.feed.clone(), ..c.content.clone() });
         files.extend(cx.after.iter().cloned());
-        sessions.push(SessionSpec { files, concurrent: cx.concurrent, yields: vec![1, 0, 2], client: cx.client, restart_before: cx.restart });
+        sessions.push(SessionSpec { files, concurrent: cx.concurrent, yields: vec![1, 0, 2], client: cx.client, restart_before: cx.restart, peer: false });
         let last = sessions.len() - 1;
         let h = History { pool_seed: c.pool_seed, n_ids: c.n_ids, salt_seed: if cx.second_salt { 0x5a17 } else { 0x1111 }, sessions, global_dedup: cx.global_dedup };
         let obs = run_history(&h, RunOpts::default())?;
